@@ -245,6 +245,13 @@ theorem registry_add_order (a args : Nat) (r : SysReg) :
     (sysAdd a args r).map (·.1) = if (r.map (·.1)).contains a then r.map (·.1) else r.map (·.1) ++ [a] :=
   sysAdd_keys a args r
 
+/-- `CmdPeriod.do_once`: with any number of pending `do_once` registrations (wrappers `once`, each a key of
+    its own that removes itself), one `run` executes EVERY registered action exactly once in registration
+    order with its own arguments, and afterwards exactly the `do_once` wrappers are gone — so the next
+    run (by `registry_runs_current`) executes the permanent actions only -/
+theorem registry_do_once (once : Nat → Bool) (r : SysReg) (hnd : (r.map (·.1)).Nodup) :
+    sysRun (onceBeh once) r = (r.filter (fun q => !once q.1), r) := sysRun_once once r hnd
+
 theorem registry_remove_removes (r : SysReg) (a : Nat) : a ∉ (sysApply r (.remove a)).map (·.1) :=
   sys_remove_removes r a
 
